@@ -27,6 +27,10 @@ def plan(tier, seed):
     for j in range(3 if tier == "quick" else 6):
         specs.append({"name": f"shared-input-threads-{j}", "kind": "shared_input", "index": j, "primitive_monitors": False,
                       "budget_s": 12 if tier == "quick" else 150})
+    for j in range(3):
+        specs.append({"name": f"shared-scheme-object-threads-{j}", "kind": "shared_input", "primitive_monitors": False,
+                      "shared_object": gen.SCHEMES[3 * j: 3 * j + 3], "rounds": 1 if tier == "quick" else 10,
+                      "budget_s": 200})
     return specs
 
 
@@ -77,6 +81,73 @@ def edb_shape(edb):
     return shape(pickle.loads(raw[raw.find(b"\x80"):]))
 
 
+def shared_object_round(acc, ctx, repo, sname):
+    """Three threads share ONE scheme object (it holds nothing but the configuration) and index three databases of
+    different sizes under their own keys at the same moment; every index must have the shape it has when built alone."""
+    from vlib import instrument
+    import threading
+    rng = ctx.rng
+    cfg = gen.default_config(sname)
+    if sname == "CGKO06.SSE1":
+        cfg.update(param_s=64, param_dictionary_size=16)
+    if sname == "DP17.Pi":
+        cfg["param_L"] = rng.choice([1, 2])
+    dbs = []
+    try:
+        for _ in range(3):
+            lens = [rng.randint(1, 6) for _ in range(rng.randint(2, 6))]
+            dbs.append(gen.db_from_lens(rng, sname, cfg, lens, "profile", fix_config=False)[0])
+        if sname == "CGKO06.SSE2":
+            cfg["param_n"] = max(len({i for v in d.values() for i in v}) for d in dbs) + 2
+        ref = []
+        for d in dbs:
+            s1 = sse.loader(sname).SSEScheme(copy.deepcopy(cfg))
+            ref.append(edb_shape(s1.EDBSetup(s1.KeyGen(), copy.deepcopy(d))))
+    except Exception as e:
+        acc.note(f"shared-object: reference failed: {exc_site(e)}")
+        return
+    acc.count("cases")
+    acc.count("shared_input.shared_object_cases")
+    sch = sse.loader(sname).SSEScheme(copy.deepcopy(cfg))
+    bad, built, lock = [], [0], threading.Lock()
+
+    def worker(i):
+        def go():
+            for _ in range(3):
+                if bad:
+                    return
+                try:
+                    shp = edb_shape(sch.EDBSetup(sch.KeyGen(), copy.deepcopy(dbs[i])))
+                except Exception as e:     # noqa
+                    with lock:
+                        bad.append(("raised", exc_site(e), f"{type(e).__name__}: {e}"))
+                    return
+                with lock:
+                    built[0] += 1
+                    if shp != ref[i]:
+                        bad.append(("shape", "", ""))
+        return go
+    with instrument.YieldInjector(repo, subdirs=("schemes", "toolkit"), every=5) as yi:
+        errs = instrument.run_threads([worker(i) for i in range(3)], timeout=120)
+    acc.count("shared_input.indexes_built_concurrently", built[0])
+    acc.count("shared_input.forced_switch_points", yi.yields)
+    acc.add("shared_input.shared_object_schemes", gen.SHORT[sname])
+    if any(isinstance(e, TimeoutError) for e in errs):
+        acc.count("shared_input.watchdog")
+        return
+    short = gen.SHORT[sname]
+    case = {"shared_input": True, "shared_object": True, "scheme": sname, "cfg": cfg}
+    for what, site, msg in bad[:1]:
+        if what == "shape":
+            acc.violation(f"{short}:shape-differs-when-the-scheme-object-is-shared-by-threads",
+                          f"{sname}: three threads index three databases with ONE scheme object at the same moment: an index "
+                          f"got a shape that differs from the one built alone from the same database", case)
+        else:
+            acc.violation(f"{short}:setup-raised-when-the-scheme-object-is-shared-by-threads:{site}",
+                          f"{sname}: EDBSetup raised {msg} while two other threads used the same scheme object (alone it "
+                          f"succeeds)", case)
+
+
 def run_shared_input(spec, acc, ctx):
     """Three threads, each with its own scheme object and key, index ONE database dict at the same moment (reading
     one dict from several threads is legitimate use), with forced switch points in schemes/ and toolkit/. Every index
@@ -88,6 +159,11 @@ def run_shared_input(spec, acc, ctx):
     rng = ctx.rng
     repo = os.environ.get("VERIF_REPO", "/repo")
     k = spec.get("index", 0)
+    if spec.get("shared_object"):
+        for sname in spec["shared_object"]:
+            for _ in range(spec.get("rounds", 2)):
+                shared_object_round(acc, ctx, repo, sname)
+        return
     while not ctx.out_of_time():
         trio = rng.sample(gen.SCHEMES, 3)
         if k % 2 == 0 and "CT14.Pi" not in trio and "ANSS16.Scheme3" not in trio:
@@ -497,6 +573,8 @@ def finish(m, tier, seed):
         "one_database_dict_indexed_by_three_threads": {k[13:]: v for k, v in c.items() if k.startswith("shared_input.")},
         "scheme_trios_sharing_one_database": len(m["sets"].get("shared_input.scheme_trios", [])),
     }
+    if len(m["sets"].get("shared_input.shared_object_schemes", [])) < 9:
+        inc.append("threads sharing one scheme object: not all nine schemes were reached")
     if c.get("shared_input.indexes_built_concurrently", 0) < 100 or c.get("shared_input.forced_switch_points", 0) < 1000:
         inc.append("the shared-input thread workload built fewer than 100 indexes or forced fewer than 1000 switches")
     if len(m["sets"].get("big_schemes", [])) < len(BIG):
